@@ -55,6 +55,13 @@ pub broadcast proof fn lemma_fits_0_1(w: int)
     assert(pow2i(1) == 2 * pow2i(0));
 }
 
+pub broadcast proof fn lemma_fits_one(w: int)
+    requires w >= 1,
+    ensures #[trigger] v_fits(w, 1),
+{
+    lemma_fits_0_1(w);
+}
+
 pub broadcast proof fn lemma_ones_fits(w: int)
     requires w >= 1,
     ensures v_fits(w, #[trigger] v_ones(w)), v_ones(w) >= 1,
